@@ -9,9 +9,8 @@ use rocket::{post, Shutdown};
 use rocket::{route, Request, Response};
 use rocket::{routes, Config};
 
-use rocket::http::ContentType;
+use rocket::http::{ContentType, RawStr};
 use rocket::response::Responder;
-use std::collections::HashMap;
 use std::fmt::Debug;
 use std::net::IpAddr;
 
@@ -43,13 +42,30 @@ struct Message {
     pub session: SessionId,
 }
 
+/// Parses a "application/x-www-form-urlencoded" body to a list of name/value pairs.\
+/// The names are taken literally: Rocket's form guards would interpret '.' and '[' inside a field
+/// name as path to nested values.
+fn parse_form_data(body: &str) -> Vec<(String, String)> {
+    let mut form_data = Vec::new();
+    for field in body.split('&') {
+        if !field.is_empty() {
+            let (name, value) = field.split_once('=').unwrap_or((field, ""));
+            form_data.push((
+                RawStr::new(name).url_decode_lossy().to_string(),
+                RawStr::new(value).url_decode_lossy().to_string(),
+            ));
+        }
+    }
+    form_data
+}
+
 #[post("/scxml/<sessionid>", data = "<params>")]
 fn rocket_receive_event(
     sessionid: u32,
-    params: rocket::form::Form<HashMap<String, String>>,
+    params: String,
     executor_state: &rocket::State<ExecutorStateArc>,
 ) -> (rocket::http::Status, String) {
-    let form_data = params.into_inner();
+    let form_data = parse_form_data(params.as_str());
 
     match executor_state.arc.lock() {
         Ok(state) => match state.sessions.get(&sessionid) {
